@@ -2,6 +2,7 @@
 package c18
 
 import (
+	"io"
 	"sync"
 	"encoding/json"
 	"errors"
@@ -42,6 +43,9 @@ var injectedErrors = []error{
 	errors.New("injected callback failure"),
 	fmt.Errorf("injected callback failure: %w", &algoparser.ParseError{Description: "inner parse error of the callback", Pos: lexer.Position{Filename: "inner.ebnf", Offset: 7, Line: 3, Column: 4}}),
 	errors.Join(errors.New("injected callback failure"), errors.New("and a second one")),
+	// an error of the callback that wraps the end-of-input marker of the token source (e.g. from reading a file)
+	fmt.Errorf("injected callback failure: %w", io.EOF),
+	fmt.Errorf("injected callback failure: %w", io.ErrUnexpectedEOF),
 }
 
 func injected(failAt int) error {
